@@ -147,6 +147,10 @@ def report(V, fam, results, sessions_by_id=None, maxreports=40):
                     prev = [e for e in cmds[:-1] if e.get("c", {}).get("k") == "bad"]
                     if prev:
                         kind += "<-bad(%s)" % head(prev[-1].get("text", ""))
+            if code == "panicked":
+                code += "(%s)" % re.sub(r"[^A-Za-z ]", "", ev.get("msg", ""))[:40].strip()
+            if kind == "extract" and any(fn.get("cost", 1) >= 100000000 for fn in decl["prog"]["funcs"]):
+                kind += "+hugecosts"
             if ev["e"] == "abort":
                 code += "(%s)" % re.sub(r"[^A-Za-z ]", "", re.sub(r"`[^`]*`", "", ev.get("why", "")))[:40].strip()
                 kind = "after-clone" if any(e["e"] == "clone" for e in cmds) else "single-egraph"
